@@ -75,13 +75,40 @@ func c32Doc(s, k1, k2 int) interface{} {
 }
 
 // c32PickDoc draws the selectors of a document; k2 is only drawn for the two-member shapes.
-func c32PickDoc(prefix string, kinds int) (s, k1, k2 int) {
+func c32PickDoc(prefix string, kinds2 int) (s, k1, k2 int) {
 	s = nd.Pick(prefix+".shape", c32Shapes)
-	k1 = nd.Pick(prefix+".k1", kinds)
+	k1 = nd.Pick(prefix+".k1", c32ValKinds)
 	if s == 3 || s == 5 {
-		k2 = nd.Pick(prefix+".k2", kinds)
+		k2 = c32SecondKind(nd.Pick(prefix+".k2", kinds2))
 	}
 	return
+}
+
+// c32SecondKind orders the kinds of the SECOND member/element so that a prefix of 5 still has one of each sort:
+// null, {"b":2}, [3], "s", [], then the rest.
+func c32SecondKind(i int) int {
+	switch i {
+	case 0:
+		return 0
+	case 1:
+		return 5
+	case 2:
+		return 8
+	case 3:
+		return 3
+	case 4:
+		return 7
+	case 5:
+		return 1
+	case 6:
+		return 2
+	case 7:
+		return 4
+	case 8:
+		return 6
+	default:
+		return 9
+	}
 }
 
 const c32NewVals = 4
@@ -488,6 +515,75 @@ func c32ExpectArrayInsert(doc interface{}, legs []c32Leg, v interface{}) (exp in
 	return c32With(doc, legs[:n-1], na), true
 }
 
+// c32PathClass names the shape of (document, path) on which the code is KNOWN (found with these harnesses, see the
+// report / known findings) to deviate from the documented semantics; "" for every other input. It is computed from
+// the inputs only. Assertions on such inputs carry the class as a suffix of their id, so that a known finding does
+// not hide a failure anywhere else.
+//
+//	.missing-member-then-cell          a member leg names a member the object does not have and the NEXT leg is a cell
+//	                                   (updateObject descends into doc[name] without checking that it exists)
+//	.cell-on-non-array-then-more-legs  a cell leg is applied to a value that is not an array and more legs follow
+//	                                   (updateObjectTreatAsArray ignores the rest of the path)
+//	.cell-past-end-then-more-legs      a cell leg is past the end of an array and more legs follow
+//	                                   (updateArray's out-of-range branch ignores the rest of the path)
+func c32PathClass(doc interface{}, legs []c32Leg) string {
+	v := doc
+	n := len(legs)
+	for k := 0; k < n; k++ {
+		l := legs[k]
+		more := k < n-1
+		if l.isMember {
+			o, isObj := v.(map[string]interface{})
+			if !isObj {
+				return ""
+			}
+			c, has := o[l.member]
+			if !has {
+				if more && !legs[k+1].isMember {
+					return ".missing-member-then-cell"
+				}
+				return ""
+			}
+			v = c
+			continue
+		}
+		a, isArr := v.([]interface{})
+		if !isArr {
+			if more {
+				return ".cell-on-non-array-then-more-legs"
+			}
+			return ""
+		}
+		i := l.index
+		if l.last {
+			i = len(a) - 1
+		}
+		if i < 0 || i >= len(a) {
+			if more {
+				return ".cell-past-end-then-more-legs"
+			}
+			return ""
+		}
+		v = a[i]
+	}
+	return ""
+}
+
+// c32MemberLegOnNonObject: some member leg is applied to a value that is not an object.
+func c32MemberLegOnNonObject(doc interface{}, legs []c32Leg) bool {
+	for k, l := range legs {
+		if !l.isMember {
+			continue
+		}
+		if at, sel := c32Resolve(doc, legs[:k], true); sel {
+			if _, isObj := at.(map[string]interface{}); !isObj {
+				return true
+			}
+		}
+	}
+	return false
+}
+
 func c32ResultVal(m MutableJSON) (interface{}, bool) {
 	switch d := m.(type) {
 	case JSONDocument:
@@ -503,9 +599,9 @@ func c32ResultVal(m MutableJSON) (interface{}, bool) {
 
 func c32WriteHarness(mode int, tag string) {
 	pfx := "c32." + tag
-	s, k1, k2 := c32PickDoc(pfx, nd.Bound(c32ValKinds, c32ValKinds))
+	s, k1, k2 := c32PickDoc(pfx, nd.Bound(5, c32ValKinds))
 	legs := c32Path(nd.Pick(pfx+".path", c32Paths))
-	vk := nd.Pick(pfx+".newval", nd.Bound(3, c32NewVals))
+	vk := nd.Pick(pfx+".newval", nd.Bound(2, c32NewVals))
 	path := c32PathString(legs, true)
 
 	orig := c32Doc(s, k1, k2)
@@ -530,6 +626,10 @@ func c32WriteHarness(mode int, tag string) {
 	nd.Assert(pfx+".no-error", err == nil)
 	got, ok := c32ResultVal(res)
 	nd.Assert(pfx+".result-is-document", ok)
+	if class := c32PathClass(orig, legs); class != "" {
+		nd.Assert(pfx+".document-as-documented"+class, c32Eq(got, exp))
+		return
+	}
 
 	// lookup-after-write: where the write applies to an existing path (SET/REPLACE) or adds a member (SET/INSERT),
 	// the path selects the written value afterwards.
@@ -555,7 +655,7 @@ func VerifC32DocReplace() { c32WriteHarness(c32Replace, "replace") }
 // SET = REPLACE and INSERT = identity where the path exists; SET = INSERT and REPLACE = identity where it does not.
 func VerifC32DocSetInsertReplace() {
 	pfx := "c32.sir"
-	s, k1, k2 := c32PickDoc(pfx, c32ValKinds)
+	s, k1, k2 := c32PickDoc(pfx, nd.Bound(5, c32ValKinds))
 	legs := c32Path(nd.Pick(pfx+".path", c32Paths))
 	vk := nd.Pick(pfx+".newval", nd.Bound(2, c32NewVals))
 	path := c32PathString(legs, true)
@@ -572,12 +672,13 @@ func VerifC32DocSetInsertReplace() {
 	vi, _ := c32ResultVal(ri)
 	vr, _ := c32ResultVal(rr)
 	nd.Observe(path, exists)
+	class := c32PathClass(orig, legs)
 	if exists {
-		nd.Assert(pfx+".insert-on-existing-is-identity", c32Eq(vi, orig))
-		nd.Assert(pfx+".set-equals-replace-on-existing", c32Eq(vs, vr))
+		nd.Assert(pfx+".insert-on-existing-is-identity"+class, c32Eq(vi, orig))
+		nd.Assert(pfx+".set-equals-replace-on-existing"+class, c32Eq(vs, vr))
 	} else {
-		nd.Assert(pfx+".replace-on-missing-is-identity", c32Eq(vr, orig))
-		nd.Assert(pfx+".set-equals-insert-on-missing", c32Eq(vs, vi))
+		nd.Assert(pfx+".replace-on-missing-is-identity"+class, c32Eq(vr, orig))
+		nd.Assert(pfx+".set-equals-insert-on-missing"+class, c32Eq(vs, vi))
 	}
 }
 
@@ -586,7 +687,7 @@ func VerifC32DocSetInsertReplace() {
 
 func VerifC32DocRemove() {
 	pfx := "c32.remove"
-	s, k1, k2 := c32PickDoc(pfx, c32ValKinds)
+	s, k1, k2 := c32PickDoc(pfx, nd.Bound(5, c32ValKinds))
 	legs := c32Path(nd.Pick(pfx+".path", c32Paths))
 	path := c32PathString(legs, true)
 
@@ -629,7 +730,7 @@ func VerifC32DocRemoveCellShifts() {
 	n := nd.IntRange(pfx+".len", 1, 3)
 	kinds := make([]int, n)
 	for j := 0; j < n; j++ {
-		kinds[j] = nd.Pick(pfx+".k"+strconv.Itoa(j), c32ValKinds)
+		kinds[j] = c32SecondKind(nd.Pick(pfx+".k"+strconv.Itoa(j), nd.Bound(6, c32ValKinds)))
 	}
 	nested := nd.Pick(pfx+".nested", 2) // 0: the array is the document; 1: it is member "a"
 	sel := nd.Pick(pfx+".cell", n+2)    // 0..n-1: that cell; n: [last]; n+1: one past the end
@@ -687,9 +788,9 @@ func VerifC32DocRemoveCellShifts() {
 
 func VerifC32DocArrayAppend() {
 	pfx := "c32.append"
-	s, k1, k2 := c32PickDoc(pfx, c32ValKinds)
+	s, k1, k2 := c32PickDoc(pfx, nd.Bound(5, c32ValKinds))
 	legs := c32Path(nd.Pick(pfx+".path", c32Paths))
-	vk := nd.Pick(pfx+".newval", nd.Bound(3, c32NewVals))
+	vk := nd.Pick(pfx+".newval", nd.Bound(2, c32NewVals))
 	path := c32PathString(legs, true)
 
 	orig := c32Doc(s, k1, k2)
@@ -700,9 +801,14 @@ func VerifC32DocArrayAppend() {
 	nd.Assert(pfx+".no-error", err == nil)
 	got, ok := c32ResultVal(res)
 	nd.Assert(pfx+".result-is-document", ok)
-	if exists {
-		// exactly one element more, and it is the value
-		at, sel := c32Resolve(got, legs, true)
+	if class := c32PathClass(orig, legs); class != "" {
+		nd.Assert(pfx+".document-as-documented"+class, c32Eq(got, c32ExpectArrayAppend(orig, legs, c32NewVal(vk))))
+		return
+	}
+	if _, strict := c32Resolve(orig, legs, false); strict {
+		// exactly one element more, and it is the value. (Only for a path that selects the value without auto-wrapping:
+		// after wrapping, a [0]/[last] leg selects an element of the new array, no longer the array.)
+		at, sel := c32Resolve(got, legs, false)
 		arr, isArr := at.([]interface{})
 		want := 2
 		if oa, wasArr := old.([]interface{}); wasArr {
@@ -710,7 +816,8 @@ func VerifC32DocArrayAppend() {
 		}
 		nd.Assert(pfx+".one-more-element-and-last-is-value",
 			sel && isArr && len(arr) == want && c32Eq(arr[len(arr)-1], c32NewVal(vk)))
-	} else {
+	}
+	if !exists {
 		nd.Assert(pfx+".missing-path-is-identity", c32Eq(got, orig) && !changed)
 	}
 	nd.Assert(pfx+".document-as-documented", c32Eq(got, c32ExpectArrayAppend(orig, legs, c32NewVal(vk))))
@@ -719,7 +826,7 @@ func VerifC32DocArrayAppend() {
 
 func VerifC32DocArrayInsert() {
 	pfx := "c32.arrayinsert"
-	s, k1, k2 := c32PickDoc(pfx, c32ValKinds)
+	s, k1, k2 := c32PickDoc(pfx, nd.Bound(5, c32ValKinds))
 	legs := c32Path(nd.Pick(pfx+".path", c32Paths))
 	vk := nd.Pick(pfx+".newval", nd.Bound(2, c32NewVals))
 	path := c32PathString(legs, true)
@@ -735,9 +842,19 @@ func VerifC32DocArrayInsert() {
 	if !asserted {
 		return
 	}
+	if err != nil && c32MemberLegOnNonObject(orig, legs) {
+		// walkPathAndUpdate deliberately answers "A path expression is not a path to a cell in an array" when a member
+		// leg meets a non-object (its comment says MySQL does so); the manual only says such a pair is ignored.
+		// Nothing is claimed for this case.
+		return
+	}
 	nd.Assert(pfx+".no-error", err == nil)
 	got, ok := c32ResultVal(res)
 	nd.Assert(pfx+".result-is-document", ok)
+	if class := c32PathClass(orig, legs); class != "" {
+		nd.Assert(pfx+".document-as-documented"+class, c32Eq(got, exp))
+		return
+	}
 	nd.Assert(pfx+".document-as-documented", c32Eq(got, exp))
 	nd.Assert(pfx+".changed-flag-agrees", changed == !c32Eq(got, orig))
 }
@@ -750,7 +867,7 @@ func VerifC32DocArrayInsert() {
 // object; in particular it is never true for a path that selects a value.
 func VerifC32MemberAccessOnNonObject() {
 	pfx := "c32.maono"
-	s, k1, k2 := c32PickDoc(pfx, c32ValKinds)
+	s, k1, k2 := c32PickDoc(pfx, nd.Bound(5, c32ValKinds))
 	p := nd.Pick(pfx+".path", c32Paths)
 	quoted := nd.Pick(pfx+".quoted", 2) == 1
 	legs := c32Path(p)
@@ -765,18 +882,7 @@ func VerifC32MemberAccessOnNonObject() {
 	nd.Reach(pfx)
 	nd.Observe(path, got)
 
-	want := false
-	for k, l := range legs {
-		if !l.isMember {
-			continue
-		}
-		at, sel := c32Resolve(doc, legs[:k], true)
-		if sel {
-			if _, isObj := at.(map[string]interface{}); !isObj {
-				want = true
-			}
-		}
-	}
+	want := c32MemberLegOnNonObject(doc, legs)
 	_, exists := c32Resolve(doc, legs, true)
 	nd.Assert(pfx+".never-hides-an-existing-path", !(got && exists))
 	nd.Assert(pfx+".exact", got == want)
@@ -957,4 +1063,42 @@ func VerifC32CompareStringsSym() {
 	n, _ := CompareJSON(nil, a, 1.0)
 	o, _ := CompareJSON(nil, a, map[string]interface{}{})
 	nd.Assert(pfx+".above-number-below-object", n == 1 && o == -1)
+}
+
+// ---------------------------------------------------------------------------------------------------------
+// the same family and oracle, by selector numbers, for the harness in sql/expression/function/json
+
+const (
+	ZzC32Shapes   = c32Shapes
+	ZzC32ValKinds = c32ValKinds
+	ZzC32Paths    = c32Paths
+	ZzC32NewVals  = c32NewVals
+	ZzC32ModeSet, ZzC32ModeInsert, ZzC32ModeReplace, ZzC32ModeRemove, ZzC32ModeArrayAppend = 0, 1, 2, 3, 4
+)
+
+func ZzC32Doc(s, k1, k2 int) interface{} { return c32Doc(s, k1, k2) }
+func ZzC32NewVal(k int) interface{}      { return c32NewVal(k) }
+func ZzC32SecondKind(i int) int          { return c32SecondKind(i) }
+func ZzC32PathString(p int) string       { return c32PathString(c32Path(p), true) }
+func ZzC32PathLen(p int) int             { return len(c32Path(p)) }
+func ZzC32Eq(a, b interface{}) bool      { return c32Eq(a, b) }
+func ZzC32PathClass(s, k1, k2, p int) string {
+	return c32PathClass(c32Doc(s, k1, k2), c32Path(p))
+}
+
+// ZzC32Expect: the documented result of mode on document (s,k1,k2) at path p with new value vk.
+func ZzC32Expect(mode, s, k1, k2, p, vk int) (exp interface{}, asserted bool) {
+	doc, legs := c32Doc(s, k1, k2), c32Path(p)
+	switch mode {
+	case ZzC32ModeSet:
+		return c32ExpectWrite(c32Set, doc, legs, c32NewVal(vk)), true
+	case ZzC32ModeInsert:
+		return c32ExpectWrite(c32Insert, doc, legs, c32NewVal(vk)), true
+	case ZzC32ModeReplace:
+		return c32ExpectWrite(c32Replace, doc, legs, c32NewVal(vk)), true
+	case ZzC32ModeRemove:
+		return c32ExpectRemove(doc, legs)
+	default:
+		return c32ExpectArrayAppend(doc, legs, c32NewVal(vk)), true
+	}
 }
